@@ -1014,6 +1014,18 @@ public:
 	    \return tabsize of spaces in a tab */
 	static unsigned get_tabsize () { return _tabsize; }
 
+	/*! Convert the text of a tag (decimal digits as delivered by extract_element) to a field number.
+	    \param tag tag text
+	    \return field number, 0 (not a field number) if the text is empty or the number does not fit a field number */
+	static unsigned short tag_to_fnum(const char *tag)
+	{
+		unsigned fnum(0);
+		for (; *tag; ++tag)
+			if ((fnum = fnum * 10 + (*tag - '0')) > 0xffff)
+				return 0;
+		return static_cast<unsigned short>(fnum);
+	}
+
 	/*! Determine if this repeating group count field has any elements (> 0)
 	    \param bf Basefield *
 	    \return true if has count */
